@@ -154,10 +154,9 @@ PROPS['C16'] = Prop(
            BmcRun('counter_wrapper_cbmc', 'counter_kernel.cpp', 'counter_laws.c', unwind=7, bounds='E-bmc cross-check: the real CounterRemover wrapper operator() with a stub dispatcher, translated IR->C and decided by CBMC for EVERY 32-bit trigger count and 0..5 triggers; every nsw operation asserted (signed overflow); unwind 7 with unwinding assertions')],
     thorough=[_rm('counter_cl_t', 0, 0, 5, 2, 'CallbackList', budget_s=1700), _rm('counter_disp_t', 1, 0, 5, 2, 'EventDispatcher', budget_s=1700), _rm('counter_queue_t', 2, 0, 5, 2, 'EventQueue', budget_s=1700),
               _rm('cond_args_cl_t', 0, 1, 5, 2, 'CallbackList', budget_s=1700), _rm('cond_noargs_cl_t', 0, 2, 5, 2, 'CallbackList', budget_s=1700),
-              _rm('cond_noargs_disp_t', 1, 2, 5, 2, 'EventDispatcher', budget_s=1700), _rm('cond_args_queue_t', 2, 1, 5, 2, 'EventQueue', budget_s=1700), _rm('cond_both_cl_t', 0, 3, 4, 2, 'CallbackList', budget_s=1700), _rm('cond_state_disp_t', 1, 4, 4, 2, 'EventDispatcher', budget_s=1700), _rm('cond_state_cl_t', 0, 4, 4, 2, 'CallbackList', budget_s=1700), _rm('cond_state_queue_t', 2, 4, 4, 2, 'EventQueue', budget_s=1700), _rm('cond_state_hdisp_t', 3, 4, 4, 1, 'HeterEventDispatcher', budget_s=1700), _rm('cond_both_queue_t', 2, 3, 4, 2, 'EventQueue', budget_s=1700),
-              _rm('counter_hdisp_t', 3, 0, 4, 2, 'HeterEventDispatcher', budget_s=1700), _rm('cond_args_hdisp_t', 3, 1, 4, 2, 'HeterEventDispatcher', budget_s=1700),
-              BmcRun('counter_wrapper_cbmc', 'counter_kernel.cpp', 'counter_laws.c', unwind=7, bounds='E-bmc cross-check as in the quick tier')],
-    outside='more than TT top-level triggers (TT+NB triggers separate n<=1, 2, ..., TT+NB, larger); several wrapped listeners at once; threads',
+              _rm('cond_noargs_disp_t', 1, 2, 5, 2, 'EventDispatcher', budget_s=1700), _rm('cond_args_queue_t', 2, 1, 5, 2, 'EventQueue', budget_s=1700), _rm('cond_both_cl_t', 0, 3, 4, 2, 'CallbackList', budget_s=1700), _rm('cond_state_disp_t', 1, 4, 4, 2, 'EventDispatcher', budget_s=1700), _rm('cond_state_cl_t', 0, 4, 4, 2, 'CallbackList', budget_s=1700), _rm('cond_state_queue_t', 2, 4, 4, 2, 'EventQueue', budget_s=1700), _rm('cond_both_queue_t', 2, 3, 4, 2, 'EventQueue', budget_s=1700),
+              _rm('counter_hdisp_t', 3, 0, 4, 2, 'HeterEventDispatcher', budget_s=1700),               BmcRun('counter_wrapper_cbmc', 'counter_kernel.cpp', 'counter_laws.c', unwind=7, bounds='E-bmc cross-check as in the quick tier')],
+    outside='more than TT top-level triggers (TT+NB triggers separate n<=1, 2, ..., TT+NB, larger); several wrapped listeners at once; threads; ConditionalRemover on a HeterEventDispatcher whose FIRST prototype is not the wrapped listener\'s (its generic wrapper binds to the first listed prototype: such a registration does not compile, by the library\'s binding rule)',
     assumptions=['Callback type is the default std::function (the removers wrap the listener in their own functor type); engine checks add/sub nsw, so signed overflow of the trigger count is a violation'])
 
 _AI = 'AnyId<Dig,%s>: three ids (%s) with fully symbolic 64-bit digests and 32-bit values of two value types; the digest is constrained only to be a function of the value (collisions allowed)'
